@@ -314,6 +314,19 @@ def _kills(stmts, keys):
     return False
 
 
+def fall_conditions(ifst):
+    """(test, polarity) pairs that hold whenever execution falls past the `if`
+    statement (its leaving arms were not taken); follows elif chains."""
+    out = []
+    if always_leaves(ifst.body):
+        out.append((ifst.test, False))
+        if len(ifst.orelse) == 1 and isinstance(ifst.orelse[0], ast.If):
+            out.extend(fall_conditions(ifst.orelse[0]))
+    elif ifst.orelse and always_leaves(ifst.orelse):
+        out.append((ifst.test, True))
+    return out
+
+
 class Fact:
     __slots__ = ("test", "pol", "origin")
 
@@ -342,14 +355,9 @@ def facts_at(node, stop=None, check_kills=True):
                 s = lst[j]
                 if isinstance(s, ast.If):
                     between = lst[j + 1: idx]
-                    if always_leaves(s.body):
-                        f = Fact(s.test, False, "exit")
-                        if not (check_kills and _kills(between, _mentioned_keys(s.test))):
-                            facts.append(f)
-                    elif s.orelse and always_leaves(s.orelse):
-                        f = Fact(s.test, True, "exit")
-                        if not (check_kills and _kills(between + s.body, _mentioned_keys(s.test))):
-                            facts.append(f)
+                    for test, pol in fall_conditions(s):
+                        if not (check_kills and _kills(between, _mentioned_keys(test))):
+                            facts.append(Fact(test, pol, "exit"))
                 elif isinstance(s, ast.Assert):
                     facts.append(Fact(s.test, True, "exit"))
             # the enclosing construct itself
